@@ -3,6 +3,7 @@ package detectsim
 import (
 	"io"
 	"os"
+	"strconv"
 	"strings"
 	"testing"
 	"time"
@@ -189,6 +190,27 @@ func ExecutePlain(cfg *RunConfig, timeout time.Duration) *Outcome {
 	return out
 }
 
+// softWall is the real-time allowance of one simulated run before it is
+// abandoned as inconclusive (VERIF_SOFT_WALL seconds; default 100).
+var softWall = func() time.Duration {
+	if v, err := strconv.Atoi(os.Getenv("VERIF_SOFT_WALL")); err == nil && v > 0 {
+		return time.Duration(v) * time.Second
+	}
+	return 100 * time.Second
+}()
+
+// softWallFor: scripted runs cost milliseconds to a second or two, real-runner
+// runs on 10^6-bit samples up to a minute under load.
+func softWallFor(c *RunConfig) time.Duration {
+	if os.Getenv("VERIF_SOFT_WALL") != "" {
+		return softWall
+	}
+	if c.Runners.Mode == "real" {
+		return 6 * time.Minute
+	}
+	return 30 * time.Second
+}
+
 // Execute runs one configuration under the simulator.
 func Execute(t *testing.T, cfg *RunConfig) *Outcome {
 	st := BuildStream(cfg.Stream, cfg.Required())
@@ -274,6 +296,7 @@ func Execute(t *testing.T, cfg *RunConfig) *Outcome {
 		MaxSteps:  StepBudget(cfg),
 		KeepTrace: 400,
 		WallLimit: 15 * time.Minute,
+		SoftWall:  softWallFor(cfg),
 	}
 	withStdout(cfg.Stdio, func() { out.Sim = simctl.Run(t, opt, body) })
 	rs.mu.Lock()
